@@ -9,7 +9,7 @@ git -C /repo worktree add -q "$WT" HEAD || exit 2
 cd "$WT"
 DEMO=$(ls "$D" | grep -E '_test\.go$|\.go$' | head -1)
 cp "$D/$DEMO" "$PKG/zz_seed_demo_test.go"
-echo -n "demo without patch: "; go test -vet=off -count=1 -run 'Demo|Seed' ./$PKG/ >/tmp/sc-$$.log 2>&1 && echo PASS || { echo FAIL; tail -5 /tmp/sc-$$.log; }
+echo -n "demo without patch: "; CGO_ENABLED=${RACE:+1} go test ${RACE:+-race} -vet=off -count=1 -run 'Demo|Seed' ./$PKG/ >/tmp/sc-$$.log 2>&1 && echo PASS || { echo FAIL; tail -5 /tmp/sc-$$.log; }
 rm "$PKG/zz_seed_demo_test.go"
 git apply "$D/patch.diff" || { echo "patch does not apply"; cd /; git -C /repo worktree remove --force "$WT"; exit 2; }
 echo -n "build with patch: "; go build ./... >/tmp/sc-$$.log 2>&1 && echo OK || { echo FAIL; tail -5 /tmp/sc-$$.log; }
@@ -21,5 +21,5 @@ else
   if [ -n "$FAILED" ] && go test -vet=off -count=1 $FAILED >/tmp/sc-$$.log 2>&1; then echo "PASS (after retry of $FAILED)"; else echo FAIL; grep -v '^ok\|no test files' /tmp/sc-$$.log | tail -8; fi
 fi
 cp "$D/$DEMO" "$PKG/zz_seed_demo_test.go"
-echo -n "demo with patch: "; go test -vet=off -count=1 -run 'Demo|Seed' ./$PKG/ >/tmp/sc-$$.log 2>&1 && echo "PASS (BAD: change not demonstrated)" || echo "FAIL (as expected)"
+echo -n "demo with patch: "; CGO_ENABLED=${RACE:+1} go test ${RACE:+-race} -vet=off -count=1 -run 'Demo|Seed' ./$PKG/ >/tmp/sc-$$.log 2>&1 && echo "PASS (BAD: change not demonstrated)" || echo "FAIL (as expected)"
 cd /; git -C /repo worktree remove --force "$WT"; rm -f /tmp/sc-$$.log
